@@ -125,9 +125,10 @@ class CrudProfile(StoreProfile):
             return {"op": "restart"}
         if r < 0.40:
             data = gen_data(rng) if rng.random() < 0.4 else None
-            return {"op": "create", "cfg": cfg, "sid": alpha[n], "data": data}
+            return {"op": "create", "cfg": cfg, "sid": alpha[n], "data": data, "obj": rng.random() < 0.3}
         how = "set" if r < 0.7 else "update"
-        return {"op": "write", "cfg": cfg, "sid": alpha[n], "how": how, "data": gen_data(rng, nmax=2, keys=["comment", "frames", "ok"])}
+        return {"op": "write", "cfg": cfg, "sid": alpha[n], "how": how, "obj": rng.random() < 0.3,
+                "data": gen_data(rng, nmax=2, keys=["comment", "frames", "ok"])}
 
     # ------------------------------------------------------------------ execution
     def apply(self, run, step):
@@ -142,7 +143,7 @@ class CrudProfile(StoreProfile):
         before = run.world.digest()
         if op == "create":
             from .base import do_create
-            kind, obs = do_create(run, step["cfg"], step["sid"], step.get("data"))
+            kind, obs = do_create(run, step["cfg"], step["sid"], step.get("data"), obj=bool(step.get("obj")))
             outcome = kind
             if kind == "ok":
                 run.check(obs is True, "C15.create_fails", {"sid": step["sid"], "cfg": step["cfg"], "got": obs})
@@ -156,7 +157,7 @@ class CrudProfile(StoreProfile):
                 run.check(run.world.digest() == before, "C15.failed_create_changed_something", {"sid": step["sid"]})
         elif op == "write":
             from .base import do_write
-            exists, obs = do_write(run, step["cfg"], step["sid"], step["how"], step["data"])
+            exists, obs = do_write(run, step["cfg"], step["sid"], step["how"], step["data"], obj=bool(step.get("obj")))
             outcome = "w" if exists else "missing"
             if exists:
                 run.check(obs is True, "C15.write_fails", {"sid": step["sid"], "how": step["how"], "got": obs})
@@ -185,7 +186,10 @@ class CrudProfile(StoreProfile):
             near = sorted({"/".join(s.split("/")[:-1] + ["*"]) for s in sids if "/" in s})
             exprs += [X.meth(finder_paths(cfg), "find", q) for q in near]
             reads = [s for s in sids if st.exists(cfg, s)]
-            exprs += [X.meth(getter(cfg), "get_data", s) for s in reads]
+            # through a new Getter instance, and (every other pass) through the one the client keeps; Sid given as
+            # string or as Sid object
+            G = getter(cfg) if run.stats["ops_checked"] % 2 == 0 else X.held(getter(cfg))
+            exprs += [X.meth(G, "get_data", s if k % 2 == 0 else X.sid(s)) for k, s in enumerate(reads)]
             if cfg == m.default_config:
                 exprs += [X.meth(X.sid(s), "exists") for s in sids]
                 exprs += [X.meth(X.call("FindInAll"), "find", "/".join(["*"] * d)) for d in depths]
